@@ -14,7 +14,7 @@ partial def loop (h : IO.FS.Stream) (out : IO.FS.Stream) (handle : List String â
   if line.isEmpty then
     out.flush
     return ()
-  let l := (line.dropRightWhile (fun c => c == '\n' || c == '\r'))
+  let l := String.ofList (line.toList.filter (fun c => c != '\n' && c != '\r'))
   out.putStrLn (handle (tokens l))
   loop h out handle
 
